@@ -37,7 +37,7 @@ ENVIRONMENTS = [
     'A="1"', "A='one two',B=2", 'KEY=val,OTHER="x,y"', 'P=/usr/bin:/bin,Q="%(ENV_C14_A)s"',
     'N="%(process_num)d",M="%(program_name)s_%(process_num)02d"', 'A="1",\nB="2",\nC=three',
     'G="%(group_name)s",H="%(here)s/x"', 'A=1,A=2', 'X="",Y=\'\'', 'SUP="override",B=b', 'PCT="100%%"',
-    'Z=%(ENV_C14_N)s', 'SELF="%(numprocs)d"', 'K%(process_num)d=v',
+    'Z=%(ENV_C14_N)s', 'SELF="%(numprocs)d"', 'K%(process_num)d=v', 'T=1,', 'T="a",U=b,',
 ]
 SUP_ENVIRONMENTS = ['SUP="base"', 'SUP=base,B="supb",S2=x', 'A="from_sup"', 'H="%(here)s"', 'E=%(ENV_C14_B)s',
                     'PCT="50%%%%"', 'A=1,\nB=2']
@@ -501,7 +501,8 @@ def corruptions(here, thorough=False):
         add('command=/bin/x ' + v, 'malformed expansion (conversion without a name)', _set(b, P, 'command', '/bin/x ' + v))
         add('directory=' + v, 'malformed expansion (conversion without a name)', _set(b, P, 'directory', '/tmp/' + v))
     # environment syntax
-    for v in ['KEY', 'KEY=', 'A=1,B', '=1', 'A="unclosed', "A='x", 'A=1 B=2 C', 'A==1', ',', 'A=1,,B=2']:
+    for v in ['KEY', 'KEY=', 'A=1,B', '=1', 'A="unclosed', "A='x", 'A=1 B=2 C', 'A==1', ',', 'A=1,,B=2',
+              'A=1;B=2', 'A=1 B=2', 'A=1=B', 'A="x""y"', 'A=1,B=2 C=3']:
         add('environment=' + v, 'malformed environment', _set(b, P, 'environment', v))
         add('supervisord environment=' + v, 'malformed environment', _set(b, S, 'environment', v))
     # groups
